@@ -125,6 +125,43 @@ static void destroy_race()
     pmc_outcome("runs0=%d", c.runs[0]);
 }
 
+// E: token queries racing with callback (de)registration.  The queries read the same state word the
+// registration lock lives in: with no stop requested stop_requested() is false, and stop_possible() is true
+// exactly while a stop_source exists - whatever another thread is doing to the callback list meanwhile
+template <bool OS>
+static void query_race()
+{
+    static Counters c;
+    c = Counters{};
+    g = &c;
+    int keep_source = pmc_choose(2, 0);
+    auto* src = new pika::stop_source;
+    pika::stop_token tok = src->get_token();
+    pmc_watch(src->state_.get(), sizeof(*src->state_.get()), "stop_state");
+    static cb_t* cb0;
+    cb0 = new cb_t(tok, Body{0});
+    if (!keep_source) { delete src; src = nullptr; }    // no source left, no stop requested: stop is not possible any more
+    static int bad_possible, bad_requested;
+    bad_possible = bad_requested = 0;
+    run_threads<OS>(2, [&](int i) {
+        if (i == 0)
+        {
+            delete cb0;                        // deregistration takes the state's lock bit
+            cb_t again(tok, Body{1});          // ... and so does a registration (never run: no stop is requested)
+        }
+        else
+            for (int k = 0; k < 3; ++k)
+            {
+                if (tok.stop_possible() != (keep_source != 0)) ++bad_possible;
+                if (tok.stop_requested()) ++bad_requested;
+            }
+    });
+    PMC_ASSERT(bad_possible == 0, "stop-possible", "stop_possible() returned %s %d time(s) while %s and no stop was requested", keep_source ? "false" : "true", bad_possible, keep_source ? "a stop_source exists" : "no stop_source exists");
+    PMC_ASSERT(bad_requested == 0 && c.runs[0] == 0 && c.runs[1] == 0, "stop-requested", "stop_requested() was true / a callback ran although nobody requested a stop");
+    delete src;
+    pmc_outcome("keep_source=%d", keep_source);
+}
+
 // D: deregistration from inside a callback (itself, and a sibling that must then not run)
 struct SelfBody
 {
@@ -177,6 +214,7 @@ int main(int argc, char** argv)
         {"register_race_tasks", register_race<false>, 3, 4, 0.15, 0.15, 1, focus, nullptr, nullptr},
         {"destroy_race_os", destroy_race<true>, 4, 6, 0.1, 0.1, 1, focus, nullptr, nullptr},
         {"destroy_race_tasks", destroy_race<false>, 3, 4, 0.15, 0.15, 1, focus, nullptr, nullptr},
+        {"query_race_os", query_race<true>, 3, 5, 0.05, 0.05, 1, focus, nullptr, nullptr},
         {"self_destroy_os", self_destroy<true>, 3, 5, 0.05, 0.05, 1, focus, nullptr, nullptr},
         {"self_destroy_tasks", self_destroy<false>, 2, 3, 0.1, 0.1, 1, focus, nullptr, nullptr},
     };
